@@ -136,6 +136,38 @@ pub fn check_leap(c: &LeapCase, st: &mut Stats) -> Result<(), String> {
             }
         }
     }
+    // junction probe: table + DST rule + this leap table; the last table transition is one of the rule's own instants recorded on the counting
+    // scale. Around it, localtime followed by the search must recover every instant exactly once (the search must place the junction
+    // on the UTC scale, like the forward lookup does).
+    {
+        use crate::model::{MDay, MLtt, MRule, MTrailer, MZone};
+        let cet = MLtt::new(3600, false, Some("CET"));
+        let cest = MLtt::new(7200, true, Some("CEST"));
+        let eu = MRule { std: cet.clone(), dst: cest.clone(), start: MDay::M(3, 5, 0), start_time: 7200, end: MDay::M(10, 5, 0), end_time: 10800 };
+        for y in [1973i64, 1999, 2020] {
+            for (u_t, to) in [(eu.s(y), 1usize), (eu.e(y), 0usize)] {
+                let t_cnt = oleap::f(&c.leaps, u_t);
+                if t_cnt > i64::MAX as i128 {
+                    continue;
+                }
+                let mz = MZone { trans: vec![(t_cnt as i64, to)], types: vec![cet.clone(), cest.clone()], leaps: c.leaps.clone(), trailer: MTrailer::Alt(eu.clone()) };
+                // type before the first transition is type 0 (CET); make it the right one for an end-of-DST junction
+                let mz = if to == 0 { MZone { types: vec![cest.clone(), cet.clone()], trans: vec![(t_cnt as i64, 1)], ..mz } } else { mz };
+                let zone = mz.to_tz().map_err(|e| format!("junction probe zone refused (leaps {:?}, y={y}): {e:?}", c.leaps))?;
+                let zr = zone.as_ref();
+                for d in (-30i64..=30).chain([-3600, 3600, -7200, 7200]) {
+                    st.eval(1);
+                    let u = u_t + d;
+                    let dt = DateTime::from_timespec(u, 0, zr).map_err(|e| format!("junction probe: from_timespec({u}) failed: {e:?}"))?;
+                    let v = DateTime::find(dt.year(), dt.month(), dt.month_day(), dt.hour(), dt.minute(), dt.second(), 0, zr).map_err(|e| format!("junction probe: find failed: {e:?}"))?.into_inner();
+                    let n = v.iter().filter(|k| matches!(k, FoundDateTimeKind::Normal(x) if x.unix_time() == u)).count();
+                    if n != 1 {
+                        return Err(format!("leaps {:?}: zone with table transition at count {t_cnt} (UTC {u_t}) + DST rule: the clock shows {dt} at u={u}, but the search lists that instant {n} times: {v:?}", c.leaps));
+                    }
+                }
+            }
+        }
+    }
     // model laws (self-consistency of the oracle, cheap): monotone F, G(F(u)) = u off deleted instants, inserted second shares the next UTC value
     for &(l, _) in &c.leaps {
         for d in -3..=3i64 {
